@@ -34,7 +34,9 @@ def render_token(tok, kind, rnd, layout):
     if t == 'headerjunk':
         return rnd.choice(['[Junk] # note', '[Junk] extra', '[Junk] x', '[Junk] [More]x'])
     if t == 'garbage':
-        return rnd.choice(['this is not a rule line', 'just words', '!!!', 'contains("ALFA")', '-- separator --'])
+        return rnd.choice(['this is not a rule line', 'just words', '!!!', 'contains("ALFA")', '-- separator --',
+                           # leftovers of a hand conversion from the legacy CSV file
+                           'Pattern,Merchant,Category,Subcategory', 'ALFA,Alfa,Food,Grocery', 'Pattern,Merchant,Category,Subcategory,Tags'])
     if t == 'comment':
         return rnd.choice(['# a comment', '#', '   # indented comment', '# match: contains("X")', '#[Not A Header]'])
     if t == 'blank':
@@ -158,6 +160,7 @@ def replay_states(states, seed, kind):
     rnd = random.Random(seed)
     n, nontriv, fails = 0, 0, []
     sample = None
+    corrupt = []
     for st in states:
         file = plain(st['file'])
         res = plain(st['res'])
@@ -168,6 +171,8 @@ def replay_states(states, seed, kind):
             n += 1
             if exp['err']:
                 nontriv += 1
+                if kind == 'merchants' and layout and len(corrupt) < 6 and rnd.random() < 0.05:
+                    corrupt.append((','.join(classify(file, res)) or 'corrupt', text))
                 if not obs['err']:
                     fails.append(({'site': 'parse_' + kind, 'clause': 'accepts-corrupt-file', 'corruption': classify(file, res)},
                                   {'text': text, 'kind': kind, 'expected': exp, 'observed': obs},
@@ -191,7 +196,7 @@ def replay_states(states, seed, kind):
                                       '%s reader: rules read differ from the sections written: %s vs %s' % (kind, json.dumps(o)[:300], json.dumps(e)[:300])))
             if sample is None and layout and not exp['err'] and len(file) > 6:
                 sample = {'kind': kind, 'text': text, 'spec': exp}
-    return n, nontriv, fails[:40], sample
+    return n, nontriv, fails[:40], (sample, corrupt)
 
 
 CORRUPT_FILES = [
@@ -202,6 +207,8 @@ CORRUPT_FILES = [
     ('bad-expression', '[A]\nmatch: contains("ALFA"\ncategory: Food\n'),
     ('bad-priority', '[A]\nmatch: contains("ALFA")\ncategory: Food\npriority: high\n'),
     ('bad-variable', 'big = amount >\n[A]\nmatch: contains("ALFA")\ncategory: Food\n'),
+    ('csv-header-on-top', '# converted by hand\nPattern,Merchant,Category,Subcategory\n[A]\nmatch: contains("ALFA")\ncategory: Food\n'),
+    ('csv-row-on-top', 'ALFA,Alfa,Food,Grocery\n[A]\nmatch: contains("ALFA")\ncategory: Food\n'),
 ]
 
 
@@ -226,6 +233,7 @@ def run(ck):
                        'corrupted line of the file is accepted)']
     ck.expect_model_violation('MC_RulesFile/neg', tlc.run('MC_RulesFile', 'MC_RulesFile_neg.cfg'), 'Neg_NeverRejects')
     tmp = tempfile.mkdtemp(prefix='c17_')
+    corrupt_texts = []
     try:
         for kind in ('merchants', 'views'):
             cfgs = [('MC_RulesFile_%s.cfg' % kind, None)]
@@ -236,7 +244,8 @@ def run(ck):
                 dump = os.path.join(tmp, 'r.dump')
                 res = tlc.run('MC_RulesFile', cfg, dump=dump, timeout=3000)
                 ck.expect_model_ok('MC_RulesFile/' + cfg, res)
-                for n, nontriv, fails, smp in par.map_dump(dump, replay_states, extra=(ck.seed, kind), sample=sample, seed=ck.seed, shards=96):
+                for n, nontriv, fails, (smp, corrupt) in par.map_dump(dump, replay_states, extra=(ck.seed, kind), sample=sample, seed=ck.seed, shards=96):
+                    corrupt_texts.extend(corrupt)
                     ck.case(n=n)
                     ck.trace(n)
                     for _ in range(nontriv):
@@ -249,7 +258,16 @@ def run(ck):
     finally:
         shutil.rmtree(tmp, ignore_errors=True)
     # the command line: a rules file that cannot be loaded is reported, not treated as "no rules"
-    for name, rules, up, diag in par.pmap(cli_case, CORRUPT_FILES):
+    # (the hand-written files plus corrupt files of the TLC universe, one per distinct kind of corruption and some more)
+    rnd = random.Random(ck.seed)
+    rnd.shuffle(corrupt_texts)
+    picked, seen_kinds = [], set()
+    for name, text in corrupt_texts:
+        if name not in seen_kinds or len(picked) < (40 if quick else 400):
+            seen_kinds.add(name)
+            picked.append((name, text))
+    ck.extra['corrupt_files_through_cli'] = len(picked) + len(CORRUPT_FILES)
+    for name, rules, up, diag in par.pmap(cli_case, CORRUPT_FILES + picked[:(60 if quick else 600)]):
         ck.case(n=1)
         ck.trace(1)
         out = (up['out'] + up['err'])
